@@ -14,6 +14,8 @@ def default_projection(case, res, side):
     if side == 'impl': out = lib.canon_errlines(out)
     return (lib.kind(res), out)
 
+LAST_MISMATCHES = []
+
 def correspond(cases, projection=default_projection):
     """run both sides, return (impl_results, model_results, mismatches[list of dict])"""
     impl = lib.run_harness(cases)
@@ -27,6 +29,7 @@ def correspond(cases, projection=default_projection):
         pa = projection(c, a, 'impl'); pb = projection(c, b, 'model')
         if pa != pb:
             mism.append({'case': describe(c), 'impl': repr(pa)[:600], 'model': repr(pb)[:600], 'why': 'projection differs'})
+    LAST_MISMATCHES.extend(mism[:5])
     return impl, model, mism
 
 def describe(c):
